@@ -1051,6 +1051,12 @@ func edgeProbe(e *env) (viols [][3]string, cases int64) {
 	e.svc.AddFunction(func() (int, syscall.Errno) { return 7, 0 }, "edgeErrnoZero")
 	e.svc.AddFunction(func() (int, syscall.Errno) { return 7, syscall.ENOENT }, "edgeErrnoSet")
 	e.svc.AddFunction(func(ctx context.Context, s string) (string, error) { return innerProxy.Greet(ctx, s) }, "edgeNested")
+	e.svc.AddFunction(func(ctx context.Context) string {
+		h := core.GetServiceContext(ctx).RequestHeaders()
+		names := 0
+		h.Range(func(key string, value interface{}) bool { names++; return true })
+		return fmt.Sprintf("token=%q id=%d headers=%d", h.GetString("token"), h.GetInt("id"), names)
+	}, "edgeHeaders")
 	var p struct {
 		When      func() (time.Time, error)      `name:"edgeWhen"`
 		Event     func() (event, error)          `name:"edgeEvent"`
@@ -1061,6 +1067,7 @@ func edgeProbe(e *env) (viols [][3]string, cases int64) {
 		Nested    func(s string) (string, error) `name:"edgeNested"`
 		Quoted    func(s string) (string, error) `name:"edgeGreet" header:"token:'abc'"`
 		EmptyVal  func(s string) (string, error) `name:"edgeGreet" context:"a:1,k:"`
+		Headers   func() (string, error)         `name:"edgeHeaders" header:"id:123,token:'abc'"`
 	}
 	guard := func(fn string, f func()) {
 		defer func() {
@@ -1123,6 +1130,13 @@ func edgeProbe(e *env) (viols [][3]string, cases int64) {
 		cases++
 		if r, err := p.Nested("x"); err != nil || r != "hello x" {
 			bad("edgeNested", "nested-call-with-the-service-context", fmt.Sprintf("a context-taking function that passes its context to a client proxy on %s: the caller got (%q, %v), the local call returns \"hello x\"", e.j.Transport, r, err))
+		}
+	})
+	guard("edgeHeaders", func() {
+		cases++
+		// the two headers of the tag and nothing else (the codec's own "simple" header aside)
+		if r, err := p.Headers(); err != nil || !strings.HasPrefix(r, `token="abc" id=123 headers=`) || (!strings.HasSuffix(r, "headers=2") && !strings.HasSuffix(r, "headers=3")) {
+			bad("edgeHeaders", "proxy-tag", fmt.Sprintf("header:\"id:123,token:'abc'\" on %s: the service saw %s (error %v)", e.j.Transport, r, err))
 		}
 	})
 	for name, f := range map[string]func(string) (string, error){"tag-with-quoted-last-value": p.Quoted, "tag-with-empty-value": p.EmptyVal} {
